@@ -14,6 +14,7 @@ def run(ck):
     rng = ck.rng
     ck.proofs()
     known, _ = lib.load_known("C14")
+    listed = set(int(k.get("classifier", "0")) for k in known)
     n = 1500 if thorough else 350
     cases = []
     for _ in range(n):
@@ -40,6 +41,15 @@ def run(ck):
                   "rule": "detection:\n  A: {foo: 'foo*'}\n  B: {bar: '*bar'}\n  C: {baz: 1}\n  condition: |\n    A\n    and B\n    and not C\ntrue_positives: []\ntrue_negatives: []\n"})
     cases.append({"k": "rt", "id": ck.new_id(), "docs": wdocs,
                   "rule": "detection:\n  A: {foo: 'foo*'}\n  B: {bar: '*bar'}\n  condition: >\n    A\n    or\n    B\ntrue_positives: []\ntrue_negatives: []\n"})
+    # example lists written as null / left empty
+    det1 = '{"A": {"f": "x"}, "condition": "A"}'
+    for text, nul in (('{"detection": %s, "true_positives": null, "true_negatives": null}' % det1, True),
+                      ('{"detection": %s, "true_positives": [], "true_negatives": null}' % det1, True),
+                      ('detection: %s\ntrue_positives: ~\ntrue_negatives: []\n' % det1, True),
+                      ('detection: %s\ntrue_positives:\ntrue_negatives:\n' % det1, False),
+                      ('{"detection": %s, "true_positives": {}, "true_negatives": []}' % det1, False),
+                      ('{"detection": %s, "true_negatives": []}' % det1, False)):
+        cases.append({"k": "rt", "id": ck.new_id(), "rule": text, "docs": [D({"f": "x"})], "_null_examples": nul})
     kfw = []
     for entry, w in rulebase.known_witnesses("C14"):
         if w:
@@ -57,6 +67,16 @@ def run(ck):
                 f[el[0]] = el[1:]
         ck.count("load:" + str(f.get("load", ["?"])[0]))
         if f.get("load", [""])[0] != "ok":
+            if f.get("load", [""])[0] == "err" and f.get("fromvalue") == ["ok"]:
+                # from_value accepts what from_str rejects
+                if c.get("_null_examples") and 34 in listed:
+                    ck.count("known_class_D34")
+                else:
+                    if len(direct_failed) < 4:
+                        ck.violation({"property": "C14", "kind": "direct", "what": "from_value accepts the value of a text that from_str rejects",
+                                      "rule": c["rule"], "crate": impl[c["id"]],
+                                      "replay_case": {k: v for k, v in c.items() if not k.startswith("_")}})
+                    direct_failed.add(c["id"])
             continue
         evals += 1
         nontrivial.add(c["rule"])
@@ -87,7 +107,7 @@ def run(ck):
             direct_failed.add(c["id"])
     for c in kfw:
         x = impl[c["id"]]
-        if "(load ok)" in x and "(fromvalue err)" in x:
+        if ("(load ok)" in x and "(fromvalue err)" in x) or ("(load err)" in x and "(fromvalue ok)" in x):
             ck.known(c["_e"].get("id"), c["_e"]["what"])
     ck.coverage["evaluations"] = evals
     ck.coverage["distinct_nontrivial"] = len(nontrivial)
